@@ -103,7 +103,7 @@ fn alphabet(c: usize) -> Vec<Op> {
     sizes.sort();
     sizes.dedup();
     let mut a: Vec<Op> = sizes.into_iter().map(Op::Append).collect();
-    a.extend([Op::IterAll, Op::IterTake(1), Op::IterTake(c + 1), Op::ChunksAll, Op::ChunksTake(1)]);
+    a.extend([Op::IterAll, Op::IterTake(0), Op::IterTake(1), Op::IterTake(c + 1), Op::ChunksAll, Op::ChunksTake(0), Op::ChunksTake(1)]);
     a
 }
 
@@ -186,7 +186,7 @@ fn mpc_level(rep: &mut Report, seed: u64, thorough: bool) {
 pub fn run(tier: &str, seed: u64) -> i32 {
     let thorough = tier == "thorough";
     let mut rep = Report::new("C19", tier, seed, "exploration");
-    rep.rule = "model-based: every operation sequence of length <= 4 (exhaustive) over {append(1 | c-1 | c | c+1 | 3c), iter(all), iter(take k then drop), chunks(all), chunks(take 1 then drop)} for c in {1,2,5}, plus random sequences up to length 12 and c up to 9, run against a Vec<Vec<u64>> model, the in-memory variant and the temp-file variant of FileOrMemBuf<u64>; afterwards the directory must be empty and the process must not have gained file descriptors. distinct = operation sequences; non-trivial = the sequence contains at least one append and one read".into();
+    rep.rule = "model-based: every operation sequence of length <= 4 (exhaustive) over {append(1 | c-1 | c | c+1 | 3c), iter(all), iter(take 0 | 1 | c+1 then drop), chunks(all), chunks(take 0 | 1 then drop)} for c in {1,2,5}, plus random sequences up to length 12 and c up to 9, sequences with chunks of 1100..5000 items (reads abandoned with more than a read-ahead buffer left) and three with chunks of tens of MiB, run against a Vec<Vec<u64>> model, the in-memory variant and the temp-file variant of FileOrMemBuf<u64>; afterwards the directory must be empty and the process must not have gained file descriptors. distinct = operation sequences; non-trivial = the sequence contains at least one append and one read".into();
     rep.assumptions = vec!["element type u64 (the engine stores serde-serialisable share types the same way)".into(), "mpc level: a few circuits on both sides of the 1000-gate batch boundary under all-memory, all-file and mixed assignments (more role assignments under C01 / C09 / C12)".into()];
     let mut seqs: Vec<(Vec<Op>, usize)> = vec![];
     for c in [1usize, 2, 5] {
@@ -220,9 +220,29 @@ pub fn run(tier: &str, seed: u64) -> i32 {
             .collect();
         seqs.push((s, c));
     }
+    // medium-sized chunks: a read abandoned half way leaves more than a read-ahead buffer (8 KiB) of the
+    // file unread, so the shared file offset is somewhere in the middle when the next append happens
+    let n_mid = if thorough { 6000 } else { 400 };
+    for _ in 0..n_mid {
+        let c = rng.random_range(1100..5000);
+        let len = rng.random_range(4..=9);
+        let mut s: Vec<Op> = vec![Op::Append(c), Op::Append(c)];
+        for _ in 0..len {
+            s.push(match rng.random_range(0..10) {
+                0..=2 => Op::Append(if rng.random_bool(0.7) { c } else { rng.random_range(1..=c) }),
+                3 => Op::IterAll,
+                4 => Op::IterTake(rng.random_range(0..3 * c)),
+                5 => Op::ChunksAll,
+                6..=8 => Op::ChunksTake(rng.random_range(0..3)),
+                _ => Op::IterTake(rng.random_range(0..3)),
+            });
+        }
+        s.push(Op::IterAll);
+        seqs.push((s, c));
+    }
     // a few very large chunks (tens of MiB when serialised)
     for (c, tail) in [(1usize << 21, 5usize), ((1 << 21) + 1, 1), (3 << 20, 7)] {
-        seqs.push((vec![Op::Append(c), Op::ChunksAll, Op::IterTake(10), Op::Append(tail), Op::IterAll, Op::ChunksTake(1)], c));
+        seqs.push((vec![Op::Append(c), Op::ChunksAll, Op::IterTake(10), Op::Append(tail), Op::IterAll, Op::ChunksTake(1), Op::Append(tail), Op::ChunksTake(0), Op::Append(3), Op::IterAll], c));
     }
     let fd_before = fd_count();
     let results = parallel_for(seqs.len(), threads(), |i| run_seq(&seqs[i].0, seqs[i].1, i as u64));
